@@ -66,13 +66,29 @@ Proof. apply read_latest, reach_IdxInv. Qed.
 Lemma reach_ids_increasing ops : increasing (map b_id (blobs_in_order (reach ops))).
 Proof. apply reach_IdsOk. Qed.
 
-(* C04 / C03: anything that is not a write or a delete leaves the log untouched *)
+(* C04 / C03: anything that is not a write or a delete -- nor damage done to a blob file by a crash -- leaves the log
+   untouched. `s_bad (reach ops) = []`: no blob file was made unreadable by a crash since the last start (always so
+   while the storage is open: reach_open_no_bad); otherwise the next `open` moves the unreadable files to the corrupted
+   directory and their records leave the log (CrashProofs.cut_inside_quarantines). *)
+Lemma reach_open_no_bad ops : s_open (reach ops) = true -> s_bad (reach ops) = [].
+Proof. apply reach_IdsOk. Qed.
+
 Lemma reach_nondata_abs ops o :
-  is_data_op o = false -> abs (fst (step_q K cfg (reach ops) o)) = abs (reach ops).
+  is_data_op o = false -> s_bad (reach ops) = [] -> abs (fst (step_q K cfg (reach ops) o)) = abs (reach ops).
 Proof.
-  intros Ho. apply step_q_nondata_abs; [exact Ho| |].
+  intros Ho HB. apply step_q_nondata_abs; [exact Ho| | |exact HB].
   - apply reach_IdsOk.
   - apply (run_NoActiveWhenClosed K cfg ops init_storage), init_NoActiveWhenClosed.
+Qed.
+
+(* the same for EVERY history, crash damage included: the log is as before, except that `open` drops the records of
+   the blob files a crash made unreadable *)
+Lemma reach_nondata_abs_gen ops o :
+  is_data_op o = false ->
+  abs (fst (step_q K cfg (reach ops) o)) = match o with OOpen _ => readable_log (reach ops) | _ => abs (reach ops) end.
+Proof.
+  intros Ho. apply step_q_nondata_abs_gen; [exact Ho|apply reach_IdsOk|].
+  apply (run_NoActiveWhenClosed K cfg ops init_storage), init_NoActiveWhenClosed.
 Qed.
 
 Lemma run_app ops1 : forall ops2 s,
@@ -89,43 +105,82 @@ Proof.
   unfold reach. rewrite run_app. cbn [run]. destruct (step_q K cfg (fst (run K cfg init_storage ops)) o); reflexivity.
 Qed.
 
+Lemma nondata_not_cut o : is_data_op o = false -> forall id, o <> OCut id None.
+Proof. intros H id ->. discriminate H. Qed.
+
+Lemma reach_nondata_bad ops o :
+  is_data_op o = false -> s_bad (reach ops) = [] -> s_bad (reach (ops ++ [o])) = [].
+Proof.
+  intros Ho HB. rewrite reach_snoc. apply bad_nil_step_q; [apply reach_IdsOk|apply nondata_not_cut, Ho|exact HB].
+Qed.
+
 (* C04: after a maintenance / lifecycle operation every read answers as before *)
 Lemma reach_maint_read ops o k :
-  is_data_op o = false ->
+  is_data_op o = false -> s_bad (reach ops) = [] ->
   get_latest_entry (reach (ops ++ [o])) k None = get_latest_entry (reach ops) k None.
 Proof.
-  intros Ho. rewrite !reach_read_latest. rewrite reach_snoc, reach_nondata_abs by exact Ho. reflexivity.
+  intros Ho HB. rewrite !reach_read_latest. rewrite reach_snoc, reach_nondata_abs by assumption. reflexivity.
 Qed.
 
 (* C03: close + reopen (eager or lazy), with or without removing index files in between *)
 Lemma reach_restart_abs ops lazy :
-  abs (reach (ops ++ [OClose; OOpen lazy])) = abs (reach ops).
+  s_bad (reach ops) = [] -> abs (reach (ops ++ [OClose; OOpen lazy])) = abs (reach ops).
 Proof.
+  intros HB.
   replace (ops ++ [OClose; OOpen lazy]) with ((ops ++ [OClose]) ++ [OOpen lazy]) by (rewrite <- app_assoc; reflexivity).
-  rewrite (reach_snoc (ops ++ [OClose])), reach_nondata_abs by reflexivity.
-  rewrite reach_snoc, reach_nondata_abs by reflexivity. reflexivity.
+  rewrite (reach_snoc (ops ++ [OClose])), reach_nondata_abs; [|reflexivity|apply reach_nondata_bad; [reflexivity|exact HB]].
+  rewrite reach_snoc, reach_nondata_abs by (reflexivity || exact HB). reflexivity.
+Qed.
+
+Lemma reach_rmindex_bad ops ids :
+  s_bad (reach ops) = [] -> s_bad (reach (ops ++ map ORmIndex ids)) = [].
+Proof.
+  intros HB. induction ids as [|i ids IH] using rev_ind.
+  - cbn [map]. rewrite app_nil_r. exact HB.
+  - rewrite map_app. cbn [map]. rewrite app_assoc. apply reach_nondata_bad; [reflexivity|exact IH].
 Qed.
 
 Lemma reach_restart_rmindex_abs ops ids lazy :
+  s_bad (reach ops) = [] ->
   abs (reach (ops ++ [OClose] ++ map ORmIndex ids ++ [OOpen lazy])) = abs (reach ops).
 Proof.
-  rewrite !app_assoc. rewrite reach_snoc, reach_nondata_abs by reflexivity.
+  intros HB. pose proof (reach_nondata_bad ops OClose eq_refl HB) as HB1.
+  replace (ops ++ [OClose] ++ map ORmIndex ids ++ [OOpen lazy])
+    with (((ops ++ [OClose]) ++ map ORmIndex ids) ++ [OOpen lazy]) by (rewrite <- !app_assoc; reflexivity).
+  rewrite reach_snoc, reach_nondata_abs; [|reflexivity|apply reach_rmindex_bad, HB1].
   induction ids as [|i ids IH] using rev_ind.
-  - cbn [map]. rewrite app_nil_r, reach_snoc, reach_nondata_abs by reflexivity. reflexivity.
-  - rewrite map_app. cbn [map]. rewrite app_assoc, reach_snoc, reach_nondata_abs by reflexivity. exact IH.
+  - cbn [map]. rewrite app_nil_r, reach_snoc, reach_nondata_abs by (reflexivity || exact HB). reflexivity.
+  - rewrite map_app. cbn [map]. rewrite app_assoc, reach_snoc, reach_nondata_abs;
+      [exact IH|reflexivity|apply reach_rmindex_bad, HB1].
 Qed.
 
 (* a session that ends without close *)
 Lemma reach_drop_reopen_abs ops lazy :
-  abs (reach ((ops ++ [ODrop]) ++ [OOpen lazy])) = abs (reach ops).
+  s_bad (reach ops) = [] -> abs (reach ((ops ++ [ODrop]) ++ [OOpen lazy])) = abs (reach ops).
 Proof.
-  rewrite (reach_snoc (ops ++ [ODrop])), reach_nondata_abs by reflexivity.
-  rewrite reach_snoc, reach_nondata_abs by reflexivity. reflexivity.
+  intros HB.
+  rewrite (reach_snoc (ops ++ [ODrop])), reach_nondata_abs; [|reflexivity|apply reach_nondata_bad; [reflexivity|exact HB]].
+  rewrite reach_snoc, reach_nondata_abs by (reflexivity || exact HB). reflexivity.
 Qed.
 
+(* the positive forms, for EVERY history (crash damage included): *)
+(* whatever happened before, `open` makes the log the records of the blob files that can be read back *)
+Lemma reach_open_abs ops lazy : abs (reach (ops ++ [OOpen lazy])) = readable_log (reach ops).
+Proof. rewrite reach_snoc. apply (reach_nondata_abs_gen ops (OOpen lazy)). reflexivity. Qed.
+
+(* a running storage can be closed (or dropped) and started again without any change of the log *)
+Lemma reach_restart_open_abs ops lazy :
+  s_open (reach ops) = true -> abs (reach (ops ++ [OClose; OOpen lazy])) = abs (reach ops).
+Proof. intros Ho. apply reach_restart_abs, reach_open_no_bad, Ho. Qed.
+
+Lemma reach_drop_reopen_open_abs ops lazy :
+  s_open (reach ops) = true -> abs (reach ((ops ++ [ODrop]) ++ [OOpen lazy])) = abs (reach ops).
+Proof. intros Ho. apply reach_drop_reopen_abs, reach_open_no_bad, Ho. Qed.
+
 Lemma reach_restart_read ops lazy k :
+  s_bad (reach ops) = [] ->
   get_latest_entry (reach (ops ++ [OClose; OOpen lazy])) k None = get_latest_entry (reach ops) k None.
-Proof. rewrite !reach_read_latest. rewrite reach_restart_abs. reflexivity. Qed.
+Proof. intros HB. rewrite !reach_read_latest. rewrite reach_restart_abs by exact HB. reflexivity. Qed.
 
 End K.
 
@@ -136,3 +191,6 @@ Print Assumptions reach_Inv.
 Print Assumptions reach_read_latest.
 Print Assumptions reach_maint_read.
 Print Assumptions reach_restart_read.
+Print Assumptions reach_nondata_abs_gen.
+Print Assumptions reach_open_abs.
+Print Assumptions reach_restart_open_abs.
